@@ -23,6 +23,7 @@ func init() {
 
 func concEnumerate(tier string, emit func(string)) {
 	reentEnumerate(emit)
+	stepsEnumerate(emit)
 	for _, spec := range c17.GenericScenarioSpecs(tier) {
 		emit(spec)
 	}
@@ -38,6 +39,12 @@ func execAny(spec string) engine.Result {
 	}
 	if strings.HasPrefix(spec, "reent|") {
 		return execReent(spec)
+	}
+	if strings.HasPrefix(spec, "steps|") {
+		return execSteps(spec)
+	}
+	if strings.HasPrefix(spec, "eql|") {
+		return execEql(spec)
 	}
 	return exec(spec)
 }
